@@ -103,6 +103,7 @@ func VerifH_sid6() {
 	r, stop := Handler6(req, resp)
 
 	vnd.Assert(r != nil || stop, "C13 a built-in handler returns a nil response only together with stop")
+	vnd.Assert(r != nil || stop, "C01 no handler passes a nil response on to its successors (they would dereference it)")
 	has := sidkind != 0
 	match := has && shapeEq(sid, cfg)
 	noSidTypes := vnd.Or(t == 1, vnd.Or(t == 4, t == 6))                   // SOLICIT, CONFIRM, REBIND
@@ -185,6 +186,7 @@ func VerifH_sid4() {
 	r, stop := Handler4(req, resp)
 
 	vnd.Assert(r != nil || stop, "C13 a built-in handler returns a nil response only together with stop")
+	vnd.Assert(r != nil || stop, "C01 no handler passes a nil response on to its successors (they would dereference it)")
 	if req.OpCode != dhcpv4.OpcodeBootRequest {
 		vnd.Cover("not-a-request")
 		vnd.Assert(r == resp && !stop, "C14 v4 non-requests are left to the server's own filter")
